@@ -140,6 +140,8 @@ pub struct ProbeRec {
     pub quiescent: bool,
     /// per handle: bit0 pending, bit1 complete, bit2 invalidated
     pub status: Vec<u8>,
+    /// the same through `Connection::is_pending/..` (None when there is no handle)
+    pub status_conn: Option<Vec<u8>>,
     #[serde(skip)]
     pub snap: Option<Snap>,
     pub touches: usize,
@@ -506,6 +508,13 @@ impl<'d> Exec<'d> {
                     | ((session.is_invalidated(op) as u8) << 2)
             })
             .collect();
+        // the same question asked through the connection handle (when there is one)
+        let status_conn: Option<Vec<u8>> = conn.map(|c| {
+            self.ops
+                .iter()
+                .map(|op| (c.is_pending(op) as u8) | ((c.is_complete(op) as u8) << 1) | ((c.is_invalidated(op) as u8) << 2))
+                .collect()
+        });
         let (touches, _, _) = self.conn_counters();
         let ev_index = self.world.borrow().events.len();
         let rec = ProbeRec {
@@ -525,6 +534,7 @@ impl<'d> Exec<'d> {
             },
             quiescent: session.is_publish_quiescent(),
             status,
+            status_conn,
             snap: Some(session.verif_snapshot()),
             touches,
             arena: {
